@@ -88,6 +88,12 @@ MUTATIONS = [
     ("c10-revert-fix6", "run.py", "            if remove_cleanup:\n                atexit.unregister(self.cleanup)", "            atexit.unregister(self.cleanup)", ["C10"]),
     ("c10-no-sigterm-handler", "run.py", "        sigterm_handler = signal.signal(signal.SIGTERM, self.handle_error)", "        sigterm_handler = signal.getsignal(signal.SIGTERM)", ["C10"]),
     ("c10-cleanup-keeps-pid", "run.py", "            rmfile(self.pidfile)\n            for lock in self.locks:", "            for lock in self.locks:", ["C10"]),
+    # C11
+    ("c11-ignore-pidfile", "commandline.py", "        if self.pidpath.is_file():\n            # Get from pidpath file", "        if False and self.pidpath.is_file():\n            # Get from pidpath file", ["C11"]),
+    ("c11-revert-fix17", "tokens.py", "        # away): read the state again now that no change can be missed\n        with self.lock, self.ipc_lock:\n            self._update()\n", "", ["C11"]),
+    ("c11-revert-fix18", "tokens.py", "                except ValueError:\n                    # Token files are written while holding the IPC lock: an", "                except KeyError:\n                    # Token files are written while holding the IPC lock: an", ["C11"]),
+    ("c11-adopted-is-error", "scheduler/base.py", "        # Check if done\n        if job.donepath.exists():\n            job.state = JobState.DONE\n", "        # Check if done\n", ["C11", "C05"]),
+    ("c11-done-marker-ignored-at-submit", "scheduler/base.py", ["        if job.donepath.exists():\n            job.state = JobState.DONE\n\n        # Check if we have a running process", "        # Check if done\n        if job.donepath.exists():\n            job.state = JobState.DONE\n"], ["        # Check if we have a running process", "        # Check if done\n"], ["C11"]),
     # C12
     ("c12-revert-fix7", "core/objects.py", "        if self.meta is not None:\n            state_dict[\"meta\"] = self.meta", "        if self.meta:\n            state_dict[\"meta\"] = self.meta", ["C12"]),
     ("c12-revert-fix14", "core/objects.py", "                o.__xpm__.init_tasks = [\n                    objects[init_task_id]\n                    for init_task_id in definition.get(\"init-tasks\", [])\n                ]", "                pass", ["C12", "C20"]),
